@@ -129,7 +129,9 @@ def gen_spec(rng):
             "pattern": rng.choice(["one-to-many", "many-to-one", "random"]),
             "shuffle": rng.random() < 0.7, "channels": rng.choice([1, 2, 5]),
             "nan": rng.choice([0, 0, 0.2, 0.6]), "chan_first": rng.random() < 0.3,
-            "names": rng.choice([["primary", "secondary"], ["MHS", "AVHRR"], ["A", "B"]])}
+            # incl. group names of which one is a prefix of the other
+            "names": rng.choice([["primary", "secondary"], ["MHS", "AVHRR"], ["A", "B"],
+                                 ["MHS", "MHS_N18"], ["SAT2", "SAT"]])}
 
 
 def same(a, b):
